@@ -396,6 +396,11 @@ def _bool_of_result(ix: Index, v) -> Optional[bool]:
 
 # ------------------------------------------------------------------ REC sweep over the packages a property rests on
 
+def util_is_abstract(f: FuncDef) -> bool:
+    from .. import util as _u
+    return _u.is_abstract_body(f)
+
+
 def sweep_records(c: Check, rule: str, prefixes, floor: int = 1, strict: bool = False) -> int:
     """REC over every data class of the given packages: (1) tuple records - a property named like a constructor
     parameter reads the slot that stores that parameter; (2) plain classes - a property named like a constructor
@@ -480,6 +485,16 @@ def sweep_records(c: Check, rule: str, prefixes, floor: int = 1, strict: bool = 
                     c.expect(stored[r.attr] == {pn}, rule, '%s.%s' % (cls.key, pn),
                              'property %s returns self.%s, which the constructor sets from parameter %s (expected %r)' % (
                                  pn, r.attr, sorted(stored[r.attr]), pn), f.loc())
+                elif any(v == {pn} for v in stored.values()) and not util_is_abstract(f) \
+                        and isinstance(r, ast.Attribute) and isinstance(r.value, ast.Name) and r.value.id == f.self_name:
+                    # the parameter is kept as given in an attribute, but the property of its name hands out another
+                    # member of the object (a wrapper, a method, another field)
+                    judged += 1
+                    kept = sorted(a for a, v in stored.items() if v == {pn})
+                    c.bad(rule, '%s.%s' % (cls.key, pn),
+                          'property %s returns self.%s although the constructor keeps parameter %s in self.%s: readers '
+                          'of the record get something else than what it was constructed with' % (
+                              pn, r.attr, pn, kept[0]), f.loc())
     c.floor(rule, 'record properties judged in %s' % (', '.join(prefixes)), judged, floor)
     sweep_cross_wiring(c, rule, prefixes, floor=0)
     return judged
